@@ -388,7 +388,14 @@ class SpawnProcess(multiprocessing.context.SpawnProcess):
         Return ``True`` if the process has terminated normally or with exception.
         Return ``False`` if the process is running or not yet started.
         """
-        return self.exitcode is not None
+        if self.exitcode is not None:
+            return True
+        # `exitcode` can lag: the result collector thread also polls it, and when
+        # that thread reaps the child, a concurrent `join` in this thread sees neither
+        # the child nor (for a moment) its exit code. The sentinel does not lag.
+        return self._popen is not None and bool(
+            multiprocessing.connection.wait([self.sentinel], 0)
+        )
 
     def result(self, timeout: float | int | None = None):
         """
